@@ -1,3 +1,621 @@
 package main
 
-func runCheck(prop, tier string) int { return 0 }
+// Check driver: runs the jobs of one property, replays solver counterexamples on the real
+// build, matches known findings, writes evidence and decides the exit status.
+
+import (
+	"encoding/json"
+	"fmt"
+	"os"
+	"path/filepath"
+	"regexp"
+	"sort"
+	"strconv"
+	"strings"
+	"sync"
+	"sync/atomic"
+	"time"
+)
+
+type PropCheck struct {
+	ID          string
+	Title       string
+	Jobs        func(e *Engine, tier string) []*Job
+	Functions   []string // real functions whose block coverage is reported
+	Bounds      map[string]any
+	Assumptions []string
+	Trusted     []string
+	// Post, if set, evaluates cross-path obligations after exploration.
+	Post func(c *checkRun)
+	// NeedWitness lists reach ids of which at least one path must exist per job (vacuity guard)
+	Witness []string
+}
+
+var propChecks = map[string]*PropCheck{}
+
+type KnownFinding struct {
+	Property string `json:"property"`
+	Site     string `json:"site"` // regular expression over "<job>#<obligation>"
+	Summary  string `json:"summary"`
+	Example  string `json:"example,omitempty"`
+}
+
+type KnownFile struct {
+	Findings []KnownFinding `json:"findings"`
+	Fixed    []string       `json:"fixed"`
+}
+
+func loadKnown() *KnownFile {
+	kf := &KnownFile{}
+	b, err := os.ReadFile(verifDir + "/known_findings.json")
+	if err != nil {
+		return kf
+	}
+	if err := json.Unmarshal(b, kf); err != nil {
+		fmt.Fprintln(os.Stderr, "known_findings.json:", err)
+	}
+	return kf
+}
+
+var verifDir = "/verif"
+
+type violation struct {
+	Job       *Job
+	Ob        Obligation
+	Site      string
+	Native    *NativeModel
+	Confirmed bool
+	Outcome   *NativeOutcome
+	Known     *KnownFinding
+	Instances int
+}
+
+type checkRun struct {
+	pc      *PropCheck
+	tier    string
+	seed    int64
+	eng     *Engine
+	jobs    []*Job
+	results []*JobResult
+	extraOb []Obligation // obligations produced by Post
+	notes   map[string]bool
+}
+
+func envInt(name string, def int64) int64 {
+	if v := os.Getenv(name); v != "" {
+		if i, err := strconv.ParseInt(v, 10, 64); err == nil {
+			return i
+		}
+	}
+	return def
+}
+
+func runCheck(prop, tier string) int {
+	t0 := time.Now()
+	pc := propChecks[prop]
+	if pc == nil {
+		fmt.Fprintln(os.Stderr, "no check for property", prop)
+		return 2
+	}
+	if t := os.Getenv("VERIF_TIER"); t == "quick" || t == "thorough" {
+		tier = t
+	}
+	seed := envInt("VERIF_SEED", 1)
+	if tier == "thorough" {
+		solverTimeoutMs = 60000
+	}
+	e := loadDefault()
+	fmt.Printf("[%s] loaded /repo working tree as go/ssa in %v\n", prop, loadTime.Round(time.Millisecond))
+
+	// encoder validation: the repository's own fixtures through engine and real build
+	nfix, mm := runFixtureDifferential(e)
+	fmt.Printf("[%s] encoder validation: %d fixture cases, %d mismatches\n", prop, nfix, len(mm))
+	engineBroken := len(mm) > 0
+	for _, m := range mm {
+		fmt.Println("  ENGINE-MISMATCH", m)
+	}
+
+	cr := &checkRun{pc: pc, tier: tier, seed: seed, eng: e, notes: map[string]bool{}}
+	cr.jobs = pc.Jobs(e, tier)
+	// deterministic order, seed rotates the start
+	if n := len(cr.jobs); n > 0 {
+		k := int(seed % int64(n))
+		cr.jobs = append(cr.jobs[k:], cr.jobs[:k]...)
+	}
+	cr.results = make([]*JobResult, len(cr.jobs))
+	inner := 1
+	if len(cr.jobs) < 16 && len(cr.jobs) > 0 {
+		inner = 16 / len(cr.jobs)
+	}
+	var wg sync.WaitGroup
+	var next int64 = -1
+	for w := 0; w < 16 && w < len(cr.jobs); w++ {
+		wg.Add(1)
+		go func() {
+			defer wg.Done()
+			for {
+				i := int(atomic.AddInt64(&next, 1))
+				if i >= len(cr.jobs) {
+					return
+				}
+				cr.results[i] = e.RunJob(cr.jobs[i], inner)
+			}
+		}()
+	}
+	wg.Wait()
+	if pc.Post != nil {
+		pc.Post(cr)
+	}
+
+	// ---- collect ----
+	var paths, decided, steps, aborted, unknownFeas, truncated int
+	obTotal, obDischarged, obTrivial, obInconclusive := 0, 0, 0, 0
+	abortMsgs := map[string]int{}
+	var cands []*violation
+	seenSite := map[string]*violation{}
+	vacuous := []string{}
+	endCount := map[string]int{}
+	for ji, jr := range cr.results {
+		job := cr.jobs[ji]
+		if jr.Truncated {
+			truncated++
+		}
+		reached := map[string]bool{}
+		for _, p := range jr.Paths {
+			paths++
+			decided += p.Decided
+			steps += p.Steps
+			unknownFeas += p.UnknownFeas
+			endCount[p.End]++
+			for r := range p.Reached {
+				reached[r] = true
+			}
+			for _, n := range p.Notes {
+				cr.notes[n] = true
+			}
+			if p.End == "abort" {
+				aborted++
+				abortMsgs[trunc(firstLine(p.Msg), 160)]++
+			}
+			for _, ob := range p.Obligations {
+				obTotal++
+				switch ob.Result {
+				case "discharged":
+					obDischarged++
+				case "trivial":
+					obTrivial++
+					obDischarged++
+				case "inconclusive":
+					obInconclusive++
+				case "violated":
+					site := job.Name + "#" + ob.ID
+					if v, ok := seenSite[site]; ok {
+						v.Instances++
+						continue
+					}
+					v := &violation{Job: job, Ob: ob, Site: site, Instances: 1}
+					if ob.Model != nil {
+						v.Native = BuildNativeModel(job, p.Inputs, ob.Model)
+					}
+					seenSite[site] = v
+					cands = append(cands, v)
+				}
+			}
+		}
+		for _, w := range pc.Witness {
+			if !reached[w] {
+				vacuous = append(vacuous, job.Name+":"+w)
+			}
+		}
+	}
+	for _, ob := range cr.extraOb {
+		obTotal++
+		switch ob.Result {
+		case "discharged", "trivial":
+			obDischarged++
+		case "inconclusive":
+			obInconclusive++
+		case "violated":
+			v := &violation{Ob: ob, Site: ob.ID, Instances: 1, Confirmed: true}
+			cands = append(cands, v)
+		}
+	}
+	sort.Slice(cands, func(i, j int) bool { return cands[i].Site < cands[j].Site })
+
+	// ---- replay candidates on the real build ----
+	var cases []NativeCase
+	var idx []int
+	for i, v := range cands {
+		if v.Job != nil && v.Native != nil {
+			cases = append(cases, NativeCase{Harness: v.Job.Harness, Model: v.Native})
+			idx = append(idx, i)
+		}
+	}
+	spurious := 0
+	if len(cases) > 0 {
+		outs, err := RunNative(cases)
+		if err != nil {
+			fmt.Println("  replay failed:", trunc(err.Error(), 2000))
+			engineBroken = true
+		} else {
+			for k, o := range outs {
+				v := cands[idx[k]]
+				oc := o
+				v.Outcome = &oc
+				if v.Ob.ID == "implicit/no-panic" {
+					v.Confirmed = o.Panic != ""
+				} else {
+					for _, f := range o.Failed {
+						if f == v.Ob.ID {
+							v.Confirmed = true
+						}
+					}
+				}
+				if !v.Confirmed {
+					spurious++
+				}
+			}
+		}
+	}
+
+	// ---- prediction validation: symbolic outcome under a model vs native run ----
+	validated, valMismatch := cr.validatePredictions(seed)
+	if len(valMismatch) > 0 {
+		engineBroken = true
+		for _, m := range valMismatch {
+			fmt.Println("  ENGINE-MISMATCH", m)
+		}
+	}
+
+	// ---- verdict ----
+	known := loadKnown()
+	os.MkdirAll(verifDir+"/replays/"+prop, 0755)
+	newViol := 0
+	var knownLines, violLines []string
+	var samples []any
+	knownHit := map[int]bool{}
+	for _, v := range cands {
+		if !v.Confirmed {
+			continue
+		}
+		for ki := range known.Findings {
+			k := &known.Findings[ki]
+			if k.Property != prop {
+				continue
+			}
+			if re, err := regexp.Compile("^(?:" + k.Site + ")$"); err == nil && re.MatchString(v.Site) {
+				v.Known = k
+				knownHit[ki] = true
+				break
+			}
+		}
+		rp := filepath.Join(verifDir, "replays", prop, sanitize(v.Site)+".json")
+		writeReplay(rp, prop, v)
+		if v.Known != nil {
+			continue
+		}
+		newViol++
+		violLines = append(violLines, fmt.Sprintf("VIOLATION property=%s replay=%s", prop, rp))
+		fmt.Printf("  violated: %s (%d instance(s)) %s\n", v.Site, v.Instances, trunc(v.Ob.Details, 200))
+	}
+	for ki := range known.Findings {
+		if knownHit[ki] {
+			k := known.Findings[ki]
+			knownLines = append(knownLines, fmt.Sprintf("KNOWN-FINDING: property=%s %s: %s", prop, k.Site, k.Summary))
+		}
+	}
+	if engineBroken {
+		// a wrong encoder must neither raise nor hide an alarm silently
+		fmt.Printf("[%s] ENGINE-MISMATCH: verdicts of this run are not trustworthy; all obligations reported inconclusive\n", prop)
+		obInconclusive = obTotal
+		obDischarged = 0
+		violLines = nil
+		newViol = 0
+	}
+	for _, l := range knownLines {
+		fmt.Println(l)
+	}
+	for _, l := range violLines {
+		fmt.Println(l)
+	}
+
+	// ---- evidence ----
+	for ji, jr := range cr.results {
+		if len(samples) >= 6 {
+			break
+		}
+		job := cr.jobs[ji]
+		s := map[string]any{"job": job.Name, "harness": job.Harness, "paths": len(jr.Paths)}
+		if t := job.Lines["L0"]; t != nil {
+			s["template"] = trunc(t.Text, 700)
+		}
+		if len(job.Params) > 0 {
+			s["params"] = job.Params
+		}
+		var obs []string
+		for _, p := range jr.Paths {
+			for _, ob := range p.Obligations {
+				if len(obs) < 4 {
+					obs = append(obs, ob.ID+": "+ob.Result+" "+trunc(ob.Cond, 160))
+				}
+			}
+		}
+		s["obligations"] = obs
+		samples = append(samples, s)
+	}
+	for _, v := range cands {
+		if v.Confirmed && len(samples) < 12 {
+			s := map[string]any{"violation_site": v.Site, "known": v.Known != nil}
+			if v.Native != nil {
+				s["input"] = v.Native.Lines
+				s["values"] = v.Native.Strings
+			}
+			samples = append(samples, s)
+		}
+	}
+	if len(samples) == 0 {
+		samples = append(samples, map[string]any{"note": "no jobs"})
+	}
+	notes := sortedKeys(cr.notes)
+	cov := map[string]any{
+		"states":                        paths,
+		"transitions":                   decided,
+		"traces_validated_against_impl": validated + nfix,
+		"samples":                       samples,
+		"jobs":                          len(cr.jobs),
+		"ssa_steps":                     steps,
+		"path_ends":                     endCount,
+		"obligations":                   obTotal,
+		"discharged":                    obDischarged,
+		"trivially_true":                obTrivial,
+		"inconclusive":                  obInconclusive,
+		"inconclusive_paths":            aborted,
+		"inconclusive_reasons":          abortMsgs,
+		"feasibility_unknown":           unknownFeas,
+		"truncated_jobs":                truncated,
+		"spurious_models":               spurious,
+		"violations_confirmed_by_replay": len(violLines) + len(knownLines),
+		"known_findings":                knownLines,
+		"vacuity_failures":              vacuous,
+		"functions_encoded":             e.coverageReport(pc.Functions),
+		"bounds":                        pc.Bounds,
+		"queries":                       solverStatsMap(),
+		"decided_by_key_domain_reasoning": atomic.LoadInt64(&domainDecided),
+		"fixture_differential_cases":    nfix,
+		"prediction_validation_cases":   validated,
+		"encoder_mismatch":              engineBroken,
+		"engine_notes":                  notes,
+		"exhaustive":                    false,
+		"rule":                          "one state = one feasible path of the harness through the real SSA; one transition = one branch decision settled by the SMT solver",
+	}
+	ev := map[string]any{
+		"property_id": prop,
+		"tier":        tier,
+		"seed":        seed,
+		"level":       "model_checking",
+		"coverage":    cov,
+		"assumptions": append(append([]string{}, pc.Assumptions...), notes...),
+		"wall_s":      time.Since(t0).Seconds(),
+		"violations":  newViol,
+	}
+	cov["trusted_base"] = pc.Trusted
+	os.MkdirAll(verifDir+"/evidence", 0755)
+	eb, _ := json.MarshalIndent(ev, "", " ")
+	os.WriteFile(verifDir+"/evidence/"+prop+".json", eb, 0644)
+
+	fmt.Printf("[%s] tier=%s jobs=%d paths=%d solver-decided=%d obligations=%d discharged=%d inconclusive=%d (paths %d) spurious=%d known=%d new=%d wall=%.1fs\n",
+		prop, tier, len(cr.jobs), paths, decided, obTotal, obDischarged, obInconclusive, aborted, spurious, len(knownLines), newViol, time.Since(t0).Seconds())
+	if os.Getenv("GOSYM_JOBSTATS") != "" {
+		type js struct {
+			n string
+			p int
+			w time.Duration
+		}
+		var all []js
+		for ji, jr := range cr.results {
+			all = append(all, js{cr.jobs[ji].Name, len(jr.Paths), jr.Wall})
+		}
+		sort.Slice(all, func(i, j int) bool { return all[i].p > all[j].p })
+		for i, j := range all {
+			if i < 25 {
+				fmt.Printf("  job %-60s paths=%d wall=%v\n", j.n, j.p, j.w.Round(time.Millisecond))
+			}
+		}
+	}
+	if len(abortMsgs) > 0 {
+		for m, n := range abortMsgs {
+			fmt.Printf("  inconclusive x%d: %s\n", n, m)
+		}
+	}
+	if len(vacuous) > 0 {
+		fmt.Printf("  vacuity guard: %d job(s) never reached a witness point: %s\n", len(vacuous), trunc(strings.Join(vacuous, ", "), 400))
+	}
+	if newViol > 0 {
+		return 1
+	}
+	return 0
+}
+
+func firstLine(s string) string {
+	if i := strings.IndexByte(s, '\n'); i >= 0 {
+		return s[:i]
+	}
+	return s
+}
+
+var sanRe = regexp.MustCompile(`[^A-Za-z0-9_.\-]+`)
+
+func sanitize(s string) string {
+	s = sanRe.ReplaceAllString(s, "_")
+	if len(s) > 120 {
+		s = s[:120]
+	}
+	return s
+}
+
+func writeReplay(path, prop string, v *violation) {
+	r := map[string]any{
+		"property": prop, "site": v.Site, "obligation": v.Ob.ID, "details": v.Ob.Details, "condition": v.Ob.Cond,
+		"instances": v.Instances,
+		"replay_cmd": "bin/gosym replay " + path,
+	}
+	if v.Job != nil {
+		r["harness"] = v.Job.Harness
+		r["job"] = v.Job.Name
+	}
+	if v.Native != nil {
+		r["model"] = v.Native
+	}
+	if v.Outcome != nil {
+		r["native_outcome"] = v.Outcome
+	}
+	if v.Known != nil {
+		r["known_finding"] = v.Known.Summary
+	}
+	b, _ := json.MarshalIndent(r, "", " ")
+	os.WriteFile(path, b, 0644)
+}
+
+func solverStatsMap() map[string]any {
+	out := map[string]any{}
+	statsMu.Lock()
+	defer statsMu.Unlock()
+	for name, st := range solverStats {
+		out[name] = map[string]any{"queries": st.Queries, "sat": st.Sat, "unsat": st.Unsat, "unknown": st.Unknown, "time_s": float64(st.TimeNanos) / 1e9}
+	}
+	return out
+}
+
+// coverageReport: block coverage of the named functions by the explored paths.
+func (e *Engine) coverageReport(names []string) []map[string]any {
+	var out []map[string]any
+	e.covMu.Lock()
+	defer e.covMu.Unlock()
+	fns := allFunctionsOf(e.mainPkg)
+	byName := map[string][]int{}
+	for fn := range fns {
+		n := fn.Name()
+		if fn.Parent() != nil {
+			n = fn.String()
+			n = strings.TrimPrefix(n, mainPath+".")
+		}
+		tot, cov := len(fn.Blocks), 0
+		for _, b := range fn.Blocks {
+			if _, ok := e.coverage[b]; ok {
+				cov++
+			}
+		}
+		byName[n] = []int{tot, cov}
+	}
+	if names == nil {
+		for n, v := range byName {
+			if v[1] > 0 && !strings.HasPrefix(n, "verif") && !strings.HasPrefix(n, "H_") && n != "init" {
+				names = append(names, n)
+			}
+		}
+		sort.Strings(names)
+	}
+	for _, n := range names {
+		if v, ok := byName[n]; ok {
+			out = append(out, map[string]any{"name": n, "blocks": v[0], "covered": v[1]})
+		} else {
+			out = append(out, map[string]any{"name": n, "blocks": 0, "covered": 0, "note": "not found in current tree"})
+		}
+	}
+	return out
+}
+
+// validatePredictions: for a sample of explored paths, a model of the path condition is
+// run natively and the emitted outputs are compared with the engine's symbolic outcome
+// evaluated under the same model.
+func (cr *checkRun) validatePredictions(seed int64) (int, []string) {
+	type pick struct {
+		job *Job
+		p   *PathResult
+	}
+	var picks []pick
+	maxPicks := 24
+	if cr.tier == "thorough" {
+		maxPicks = 96
+	}
+	vsolver := NewSolver()
+	defer vsolver.Close()
+	// deterministic spread over jobs
+	for round := 0; round < 3 && len(picks) < maxPicks; round++ {
+		for ji, jr := range cr.results {
+			if len(picks) >= maxPicks {
+				break
+			}
+			var ok []*PathResult
+			for _, p := range jr.Paths {
+				if p.End == "done" || p.End == "panic" {
+					ok = append(ok, p)
+				}
+			}
+			if len(ok) <= round {
+				continue
+			}
+			k := (int(seed) + ji*7 + round*13) % len(ok)
+			p := ok[k]
+			if p.EndModel == nil {
+				if r, mod := checkModelWith(vsolver, cr.eng, p.Fresh, p.Prefs, p.PC); r == Sat {
+					p.EndModel = mod
+				}
+			}
+			if p.EndModel == nil {
+				continue
+			}
+			picks = append(picks, pick{cr.jobs[ji], p})
+		}
+	}
+	if len(picks) == 0 {
+		return 0, nil
+	}
+	var cases []NativeCase
+	for _, pk := range picks {
+		cases = append(cases, NativeCase{Harness: pk.job.Harness, Model: BuildNativeModel(pk.job, pk.p.Inputs, pk.p.EndModel)})
+	}
+	outs, err := RunNative(cases)
+	if err != nil {
+		return 0, []string{"native run failed: " + trunc(err.Error(), 1500)}
+	}
+	var mm []string
+	n := 0
+	for i, pk := range picks {
+		o := outs[i]
+		var want []string
+		evalOK := true
+		for _, ev := range pk.p.Events {
+			if ev.Kind != "emit" {
+				continue
+			}
+			r, err := pk.p.EndModel.Eval(ev.Args[0].(Str).Term())
+			if err != nil {
+				evalOK = false
+				break
+			}
+			want = append(want, r.(string))
+		}
+		if !evalOK {
+			continue
+		}
+		if o.AssumeKO {
+			continue // the model left the harness' assumptions (string model imprecision): not comparable
+		}
+		n++
+		if pk.p.End == "panic" {
+			if o.Panic == "" {
+				mm = append(mm, fmt.Sprintf("%s: engine predicts panic (%s), native run did not panic; input %v", pk.job.Name, trunc(pk.p.Msg, 100), cases[i].Model.Lines))
+			}
+			continue
+		}
+		if o.Panic != "" {
+			mm = append(mm, fmt.Sprintf("%s: native panic %q not predicted; input %v", pk.job.Name, trunc(o.Panic, 100), cases[i].Model.Lines))
+			continue
+		}
+		if strings.Join(want, "\n") != strings.Join(o.Emitted, "\n") {
+			mm = append(mm, fmt.Sprintf("%s: predicted %q native %q input %v", pk.job.Name, trunc(strings.Join(want, "|"), 300), trunc(strings.Join(o.Emitted, "|"), 300), cases[i].Model.Lines))
+		}
+	}
+	return n, mm
+}
